@@ -368,8 +368,18 @@ impl Change {
         } else if self.version == -1 {
             old_value.version.saturating_add(1)
         } else {
-            self.version.saturating_add(1)
+            live_version(self.version.saturating_add(1))
         }
+    }
+}
+
+/// The version a live key is stored with: -1 is what a removed key looks like on disk
+/// (VERSION_DELETED in storage/disk.rs), a live key carrying it is dropped by the next restart
+fn live_version(version: i32) -> i32 {
+    if version == -1 {
+        0
+    } else {
+        version
     }
 }
 
@@ -591,7 +601,7 @@ impl Database {
                         // snapshot needs to find it on disk
                         Some(old) => Value {
                             value: next.clone(),
-                            version: old.version.saturating_add(1),
+                            version: live_version(old.version.saturating_add(1)),
                             opp_id: Databases::next_op_log_id(),
                             state: old.get_update_value_sate(),
                             value_disk_addr: old.value_disk_addr,
@@ -861,7 +871,7 @@ impl Database {
             );
             self.notify_watchers(change.key.clone(), change.value.clone(), new_version);
         } else {
-            let new_version = change.version.saturating_add(1);
+            let new_version = live_version(change.version.saturating_add(1));
             //new key
             self.set_value_version(
                 &change.key,
